@@ -14,6 +14,13 @@ from .model import Repo
 from .report import Check
 
 
+def _pin_hash_seed() -> None:
+    """set iteration order must not decide a verdict: every run uses the same string hashing (the analysis iterates sets of names in a few places)"""
+    if os.environ.get("PYTHONHASHSEED") != "0":
+        os.environ["PYTHONHASHSEED"] = "0"
+        os.execv(sys.executable, [sys.executable, "-m", "sa.main", *sys.argv[1:]])
+
+
 def main(argv: list[str] | None = None) -> int:
     ap = argparse.ArgumentParser()
     ap.add_argument("prop")
@@ -71,4 +78,5 @@ def main(argv: list[str] | None = None) -> int:
 
 
 if __name__ == "__main__":
+    _pin_hash_seed()
     sys.exit(main())
